@@ -5,8 +5,11 @@
 //! description (exact tiling, MOHD counts vs chunk/record sizes, string-offset resolution in
 //! MOTX/MOGN/MODN, MOGP size back-patch, reference encodings of the group sub-chunks),
 //! (4) conversion keeps the content and serialises like the native root/group of the target
-//! version. All clauses are evaluated for every case; failures are collected per case.
+//! version, (5) histories (`history.rs`): several roots / groups / conversions through one
+//! WmoWriter / WmoParser / WmoGroupParser / WmoConverter object, every step judged against a fresh
+//! object. All clauses are evaluated for every case; failures are collected per case.
 
+mod history;
 mod model;
 mod oracle;
 mod walk;
@@ -71,6 +74,9 @@ fn settle_grid(check: &Check, o: Outcome, case: Value) {
 
 fn jroot(kind: &str, c: &RootCase) -> Value {
     json!({"kind": kind, "case": serde_json::to_value(c).unwrap()})
+}
+fn jseq(c: &history::SeqCase) -> Value {
+    json!({"kind": "history", "case": serde_json::to_value(c).unwrap()})
 }
 fn jgroup(kind: &str, c: &GroupCase) -> Value {
     json!({"kind": kind, "case": serde_json::to_value(c).unwrap()})
@@ -169,6 +175,11 @@ fn grid(check: &Check) {
     });
     settle_grid(check, oracle::eval_group(&g), jgroup("group", &g));
     check.bump("canary_empty_liquid_grid", 1);
+    // histories: several files through one writer / parser / converter object
+    for c in history::grid_cases() {
+        settle_grid(check, history::eval_seq(&c), jseq(&c));
+        check.bump("history_grid_cases", 1);
+    }
 }
 
 fn replay(check: &Check, p: &std::path::Path) {
@@ -180,6 +191,7 @@ fn replay(check: &Check, p: &std::path::Path) {
         "conv-root" => oracle::eval_conv_root(&serde_json::from_value::<RootCase>(body).expect("root case")),
         "group" => oracle::eval_group(&serde_json::from_value::<GroupCase>(body).expect("group case")),
         "conv-group" => oracle::eval_conv_group(&serde_json::from_value::<GroupCase>(body).expect("group case")),
+        "history" => history::eval_seq(&serde_json::from_value::<history::SeqCase>(body).expect("history case")),
         other => {
             eprintln!("unknown replay kind {other:?}");
             std::process::exit(2)
@@ -217,13 +229,20 @@ fn main() {
          (11 versions × empty/one/many × root/tamed root/group, 49 conversion pairs, 3 canaries) is independent of \
          the seed. non-trivial = root with ≥2 string tables (textures, group names, doodad definitions, doodad sets) \
          of ≥2 entries, or group with colours, BSP nodes or liquid, or a conversion between different versions of \
-         such a case; distinct = version × size class (0/1/n) of every list × skybox × doodad-offset mode × bounds \
-         mode × profile (roots), version × size class of every sub-chunk × liquid grid class (groups), from→to (conversions)",
+         such a case, or a history in which a root follows a root with another group-name / texture-table layout or \
+         that holds ≥2 groups. Histories (kind `history`): 2–8 files (roots, groups, conversions) that all go through ONE \
+         WmoWriter / WmoParser / WmoGroupParser / WmoConverter object, every step judged against a fresh object; grid = all \
+         ordered pairs of 8 root shapes (no/one/many groups, same count with other name lengths, permuted, two more, two \
+         fewer, other textures) at Classic and MoP, one exporter-like chain per version, a cross-version chain; random = a \
+         root edited between writes (rename/add/remove/swap groups, textures, version) or replaced by an unrelated one, \
+         with groups and conversions in between. distinct = version × size class (0/1/n) of every list × skybox × doodad-offset mode × bounds \
+         mode × profile (roots), version × size class of every sub-chunk × liquid grid class (groups), from→to (conversions), step kinds × relations of consecutive string-table layouts (histories)",
     );
     check.assume("the chunk walker, record sizes and reference encodings are my transcription of the published WMO v17 description (wowdev.wiki): MOHD 64, MOMT 64, MOGI 32, MOPT 20, MOPR 8, MOLT 48, MODS 32, MODD 40, MOGP header 68, MOBA 24, MOBN 16 (flags, negChild, posChild, nFaces, faceStart, planeDist)");
     check.assume("input domain: flag fields use defined bits only; texture names non-empty; doodad-set names ≤19 ASCII bytes; visibility lists do not contain the in-band terminator 0xFFFF; liquid vertices = width×height, tile flags = (width-1)×(height-1); batches without the large-id flag have material ids < 256; NaN excluded; a skybox given to a version without a slot for one (pre-WotLK) is expected to be dropped completely by the writer");
     check.assume("fields the writer deliberately leaves out and the statement does not list are not compared: material framebuffer_blend, light spot/directional parameters, doodad set_index, group material list, MOGP portal/batch/fog fields, group doodad references");
     check.assume("legacy visibility lists (MOVV offsets + MOVB u16 runs) are the crate's private encoding; they are only compared through the legacy parser");
+    check.assume("the property holds for every root and group whatever the writer / parser / converter object has been used for before: these are public values with &self methods and no documented single-use restriction, so the file a used object produces must be the file a fresh object produces");
     check.assume("where a known defect garbles everything downstream (MOMT size, MOHD size, MOGP header size) the remaining clauses are evaluated on a copy in which exactly that size/header was repaired by the harness; the defect itself is measured on the bytes as written");
 
     if let Some(p) = check.replay.clone() {
@@ -282,7 +301,42 @@ fn main() {
         |c| settle(&check, oracle::eval_conv_group(c)),
     );
 
+    let n_hist = check.tier.pick(16_000u32, 480_000);
+    pt::run(
+        &check,
+        "history",
+        n_hist,
+        pt::Opts::default(),
+        || history::seq_strategy(max_v),
+        jseq,
+        |c| {
+            let o = history::eval_seq(c);
+            check.sample(&format!("history{}", c.steps.len() % 3), || json!({"kind":"history","class":o.class,"steps":c.kinds(),"fails":o.fails.iter().map(|f| &f.signature).collect::<Vec<_>>()}));
+            settle(&check, o)
+        },
+    );
+
     // vacuity guards: essential classes must have been reached by construction
+    for n in [
+        "history_root_after_root_with_the_same_group_name_layout",
+        "history_root_after_root_without_groups",
+        "history_root_without_groups_after_root_with_groups",
+        "history_root_after_root_with_as_many_groups_but_other_name_lengths",
+        "history_root_after_root_with_fewer_groups",
+        "history_root_after_root_with_more_groups",
+        "history_root_after_root_with_another_texture_table_layout",
+        "history_root_after_group",
+        "history_group_after_root",
+        "history_group_after_group",
+        "history_conversion_with_a_used_converter_or_writer",
+    ] {
+        if check.counter(n) == 0 {
+            check.inconclusive(&format!("essential history never generated: {n}"));
+        }
+    }
+    if check.counter("clean_cases:history") == 0 {
+        check.inconclusive("no history case passed");
+    }
     for v in 0..=V_MOP {
         let name = VNAMES[v as usize];
         for (what, prefix) in [
